@@ -3,7 +3,7 @@ import math
 import numpy
 
 import corr_gen
-from common import rng
+from common import out, rng
 
 GEN = ['stokes_q', 'stokes_u', 'align_stokes_parameters', 'delta_phi_stokes', 'correct_phi_stokes',
        'stokes_rotation_angle', 'correct_stokes_parameters', 'modulo_2pi', 'du_rotation_angle',
@@ -149,7 +149,7 @@ def main(chk):
                 'Stokes, Stokes-space vs angle-space spurious-modulation correction, detphi round trip for DU×roll, polarization table '
                 'before/after rotating every PHI; non-trivial = rotation angle not a multiple of π/2, non-zero spurious (q,u), roll ≠ 0, > 3 events')
     chk.assumptions = TRUSTED
-    chk.lean(['IxpeVerif.Props.C06'])
+    chk.lean(['IxpeVerif.Props.C06'], GEN)
     n = 100 if chk.tier == 'quick' else 2000
     corr_gen.run(chk, GEN, n=n, tag='C06')
     oracle(chk)
@@ -160,8 +160,8 @@ def replay(body):
     r = body['replay']
     if 'oracle' in r:
         ok, obs = ORACLES[r['oracle']](r['args'])
-        print('oracle %s on the recorded input: %s  observed=%s' % (r['oracle'], 'holds' if ok else 'FAILS', obs))
+        out('oracle %s on the recorded input: %s  observed=%s' % (r['oracle'], 'holds' if ok else 'FAILS', obs))
         return 0 if ok else 1
-    print('recorded: %s' % body['what'])
-    print(r)
+    out('recorded: %s' % body['what'])
+    out(r)
     return 1
